@@ -284,7 +284,8 @@ def _first_event_diff(a: list, b: list):
             v = y[i] if i < len(y) else None
             if u != v:
                 kinds = {k[0] for k in (u, v) if k is not None}
-                kind = sorted(kinds - {'U'})[0] if kinds - {'U'} else 'U'
+                kind = '+'.join(sorted(kinds - {'U'})) if kinds - {'U'} \
+                    else 'U'
                 return (kind, f'qubit {q} position {i}: {u} vs {v}')
     return None
 
@@ -750,9 +751,12 @@ def analyse_program(case: dict) -> dict:
     defs = {d['name']: d for d in case.get('defs', [])}
     used_formal_defs = set()
 
+    maxdepth = [0]
+
     def run_body(d, actual, depth):
         if depth > 4:
             raise _OOD('nesting')
+        maxdepth[0] = max(maxdepth[0], depth)
 
         env = dict(zip(d['params'], actual))
         for s in d['body']:
@@ -817,7 +821,7 @@ def analyse_program(case: dict) -> dict:
         tags.add('multi_measure')
     tags.discard('formal_in_expr')
     return {
-        'tags': tags, 'ood': ood,
+        'tags': tags, 'ood': ood, 'depth': maxdepth[0],
         'nontrivial': ood is None and (
             len(qregs) >= 2 or bool(used_formal_defs)
         ),
@@ -928,7 +932,7 @@ def check_prog(case) -> Outcome:
         out.label('B:out-of-domain')
         return out
     out.nontrivial = info['nontrivial']
-    out.label(f'B:qregs={len(case["qregs"])}', f'B:defs={len(case["defs"])}')
+    out.label(f'B:qregs={len(case["qregs"])}', f'B:depth={info["depth"]}')
     for t in tags:
         out.label('B:' + t)
     src = render_program(case)
@@ -961,6 +965,11 @@ def check_prog(case) -> Outcome:
         )
         sig = 'b_user_gate_shadowed_by_builtin' if by_shadow \
             else reject_sig('b_reject', berr)
+        if 'pow_neg_formal' in tags and f in (
+            'undefined_name:nan', 'undefined_name:inf',
+        ):
+            # a^k with the text of a negative actual pasted in: -3**2
+            sig = 'b_unitary|pow_neg_formal'
         out.fail(sig, f'{berr!r}\n{src}')
         return out
     out.label('B:both-accept')
@@ -990,8 +999,8 @@ def check_prog(case) -> Outcome:
     if diff is not None:
         kind, text = diff
         sig = 'b_placeholders|' + kind
-        if kind == 'reset' and 'reset_reg_nonfirst' in tags:
-            sig += '|whole_register'
+        if 'reset' in kind.split('+') and 'reset_reg_nonfirst' in tags:
+            sig = 'b_placeholders|reset|whole_register'
         out.fail(sig, f'bqskit vs qiskit: {text}\n{src}')
     if not out.violations:
         reencode_check(out, c, 'b_reencode')
@@ -1699,7 +1708,7 @@ def programs(draw, excl=frozenset()):
     defs = []
     depth_of = {}
     unames = draw(st.permutations(USER_NAMES))
-    for di in range(draw(st.sampled_from([0, 1, 1, 2, 2, 3]))):
+    for di in range(draw(st.sampled_from([0, 1, 1, 2, 2, 3, 3]))):
         name = unames[di]
         if 'shadow_name' not in excl and draw(st.integers(0, 11)) == 0:
             name = draw(st.sampled_from(SHADOW_NAMES))
@@ -1707,20 +1716,26 @@ def programs(draw, excl=frozenset()):
                 name = unames[di]
         params = list(draw(st.permutations(FORMAL_PARAMS))[
             :draw(st.sampled_from([0, 1, 1, 2, 2, 3]))])
-        fq = list(draw(st.permutations(FORMAL_QUBITS))[
-            :draw(st.sampled_from([1, 1, 2, 2, 3]))])
+        nfq = draw(st.sampled_from([1, 1, 2, 2, 3]))
+        if defs and draw(st.booleans()):
+            nfq = max(nfq, len(defs[-1]['qubits']))
+        fq = list(draw(st.permutations(FORMAL_QUBITS))[:nfq])
         eg = _EG(draw, params, excl)
         body = []
         depth = 1
-        for _ in range(draw(st.sampled_from([0, 1, 2, 2, 3, 4]))):
+        nbody = draw(st.sampled_from([0, 1, 2, 2, 3, 4]))
+        for bi in range(nbody):
             kind = draw(st.sampled_from(['g'] * 5 + ['U', 'CX'] +
                                         ['user'] * 4))
+            if bi == 0 and defs and draw(st.integers(0, 3)) > 0:
+                kind = 'user'
             if kind == 'user':
                 cands = [d for d in defs
                          if len(d['qubits']) <= len(fq)
                          and depth_of[d['name']] <= 2]
                 if cands:
-                    cd = draw(st.sampled_from(cands))
+                    cd = cands[-1] if draw(st.booleans()) \
+                        else draw(st.sampled_from(cands))
                     body.append({
                         't': 'g', 'name': cd['name'],
                         'args': [eg.add(2) for _ in cd['params']],
